@@ -7,7 +7,7 @@ CFG = {
     "stages": ["go:gen", "go:impl", "lean:judge"],
     "theorems": [T + n for n in ["getStartEnd_partition", "C16_geom", "C16_geom_unsupported", "C16_order", "C16_order_any_fields", "C16_order_encode",
                                  "C16_int", "C16_int_width", "C16_string", "C16_string_violations", "C16_float", "C16_float_render",
-                                 "C16_match", "C16_match_none", "C16_match_fields"]],
+                                 "C16_match", "C16_assigned", "C16_match_none", "C16_match_fields"]],
     "trusted_base": [
         "Lean 4.33.0 kernel; axioms of every theorem printed by #print axioms must be within {propext, Classical.choice, Quot.sound}",
         "model lean/GeomV/C16/Model.lean is tied to /repo/encoding/shp/{shp.go,shp2geom.go} by the correspondence run through real temporary shapefiles (both encoder and both decoder paths, token-exact) on every check",
@@ -23,7 +23,7 @@ CFG = {
     ],
     "rule": "one case = one shapefile written and read back through real temporary files: writer NewEncoder/Encode (reflect.StructOf struct types with generated "
             "names/tags/field order) or NewEncoderFromFields/EncodeFields (generated shp.Field lists), reader DecodeRow (perturbed struct: case, tag-vs-name, "
-            "order, dropped/unmatched fields) or DecodeRowFields, or a reading SCHEDULE on one Decoder (record i read with call i mod k, k=2..4: DecodeRowFields with all names / subset / permuted / duplicates / none, mixed with DecodeRow); 0-300 records of one geometry kind (point, multipoint, LineString, MultiLineString 0-6 parts "
+            "order, dropped/unmatched fields) or DecodeRowFields, or a reading SCHEDULE on one Decoder (record i read with call i mod k, k=2..4: DecodeRowFields with all names / subset / permuted / duplicates / none, mixed with DecodeRow); DecodeRow decodes into a fresh record variable per row or into ONE reused variable (per call site), with zero values ("", 0, 0.0) alternating with non-zero ones; 0-300 records of one geometry kind (point, multipoint, LineString, MultiLineString 0-6 parts "
             "incl. empty, polygon 0-5 rings closed/unclosed/closed-up-to-signed-zero, *Bounds incl. zero height/width, nil in NULL files), coordinates from random "
             "bit patterns/NaN payloads/+-0/+-Inf/subnormals/ordinary values; ints, floats and strings at the column-width boundaries. "
             "distinct = distinct input line; non-trivial = every class (a case always writes and reads a real file)",
